@@ -173,6 +173,10 @@ def gen_cases(tier, seed):
         cases.append(dict(kind="special", what="native-seed", k=k))
     cases.append(dict(kind="special", what="tm-huge-cancel"))
     cases.append(dict(kind="special", what="reuse-after-null-row"))
+    cases.append(dict(kind="special", what="buffer-permuted"))
+    for (m_, n_) in ((2, 1), (2, 2), (3, 1), (3, 2), (3, 3)):
+        cases.append(dict(kind="special", what="imtlg-stationary", m=m_, n=n_))
+    cases.append(dict(kind="special", what="config-null-direction-big-pref"))
     for m_ in (26, 30):
         for off in (0.0, 1e4):
             cases.append(dict(kind="special", what="krum-tall-float32", m=m_, offset=off))
@@ -477,6 +481,79 @@ def run_special(case, ctx):
                             lambda: f"Krum({f},{k}) float32 {m}x{n} offset {off:g} pi={perm[:6]}...: {y.tolist()} vs {x.tolist()}")
             ctx.nontrivial += 1
             ctx.outcomes.add(f"kt:{m}:{off}:{f}:{k}")
+    elif what == "imtlg-stationary":
+        # IMTL-G on EXACTLY stationary matrices (1^T G^+ d = 0 in exact arithmetic; entries {-1,0,1}, so exact in both dtypes): the
+        # library detects this case and returns the null vector; that decision must not depend on the row order - in float32 as
+        # in float64. (The generic families drop ill-posed inputs; an exactly stationary one is not ill-posed, its answer is 0.)
+        m, n = case["m"], case["n"]
+        for idx in range(3 ** (m * n)):
+            J = A.ternary_index(m, n, idx)
+            if not np.abs(J).sum(axis=1).all():
+                continue
+            d = np.linalg.norm(J, axis=1)
+            Jn = J / d.max()
+            if abs(float((np.linalg.pinv(Jn @ Jn.T) @ (d / d.max())).sum())) > 1e-13:
+                continue
+            s = A.sigma_max(J)
+            for dtype, tol in ((torch.float64, 1e-9), (torch.float32, 1e-4)):
+                for sc in (1.0, 3.0, 1e-3):
+                    x0 = None
+                    for perm in itertools.permutations(range(m)):
+                        ctx.execs += 1
+                        x = T.IMTLG()(torch.tensor(J[list(perm)] * sc, dtype=dtype)).double().numpy() / sc
+                        if x0 is None:
+                            x0 = x
+                        ctx.compare(f"special:imtlg-stationary:{str(dtype)[6:]}", float(np.abs(x - x0).max()), tol * s, f"rowperm:IMTLG:stationary:{str(dtype)[6:]}",
+                                    lambda: f"IMTLG {str(dtype)[6:]} on the exactly stationary J={(J * sc).tolist()} pi={list(perm)}: A(pi J)/{sc}={x.tolist()} vs identity order {x0.tolist()}")
+            ctx.nontrivial += 1
+            ctx.outcomes.add(f"is:{m}:{n}:{idx}")
+    elif what == "buffer-permuted":
+        # the rows of ONE pre-allocated buffer are re-ordered in place between the calls (same tensor object, same shape, new
+        # content): every row order must give the same vector. (Added after a seeded change: the regularised Gramian memoised on
+        # the identity of the matrix tensor - module level, so new instances are affected as well.)
+        J = np.array([[1.0, 0.5, -1.0, 2.0, 0.0, 1.0], [-0.5, 2.0, 1.0, 0.25, -1.0, 0.0], [2.0, -1.0, 0.5, 1.0, 1.0, -2.0], [-1.0, -1.0, 0.0, 0.5, 2.0, 1.0]])
+        s = A.sigma_max(J)
+        pref = np.array([1.0, 2.0, 3.0, 4.0]) / 10
+        makers = [("UPGrad", lambda pi: T.UPGrad()), ("UPGrad|p", lambda pi: T.UPGrad(pref_vector=torch.tensor(pref[pi]))), ("DualProj", lambda pi: T.DualProj()),
+                  ("DualProj|p", lambda pi: T.DualProj(pref_vector=torch.tensor(pref[pi]))), ("MGDA", lambda pi: T.MGDA()), ("AlignedMTL", lambda pi: T.AlignedMTL()),
+                  ("AlignedMTL|p", lambda pi: T.AlignedMTL(pref_vector=torch.tensor(pref[pi]))), ("IMTLG", lambda pi: T.IMTLG()), ("ConFIG", lambda pi: T.ConFIG()),
+                  ("ConFIG|p", lambda pi: T.ConFIG(pref_vector=torch.tensor(pref[pi]))), ("CAGrad", lambda pi: T.CAGrad(c=0.5)), ("Mean", lambda pi: T.Mean()),
+                  ("TrimmedMean", lambda pi: T.TrimmedMean(1)), ("Krum", lambda pi: T.Krum(0, 2)), ("Constant", lambda pi: T.Constant(torch.tensor(pref[pi])))]
+        for name, mk in makers:
+            buf = torch.zeros(4, 6, dtype=torch.float64)
+            x0 = None
+            shared = mk(list(range(4))) if "|p" not in name and name != "Constant" else None  # one instance over all orders when nothing is configured
+            for pi in itertools.permutations(range(4)):
+                pi = list(pi)
+                buf.copy_(torch.tensor(J[pi]))
+                ctx.execs += 1
+                try:
+                    x = (shared if shared is not None else mk(pi))(buf).numpy().copy()
+                except Exception as e:
+                    ctx.viol.append(dict(sig=f"exception:special:{name}:{type(e).__name__}", msg=f"buffer-permuted {name} pi={pi}: {e!r}"[:300]))
+                    break
+                if x0 is None:
+                    x0 = x
+                ctx.compare(f"special:buffer-permuted:{name}", float(np.abs(x - x0).max()), (1e-3 if name == "CAGrad" else 1e-9) * s, f"rowperm:{name}:buffer-permuted",
+                            lambda: f"{name}: rows of one buffer re-ordered in place, pi={pi}: {x.tolist()} vs identity order {x0.tolist()}")
+            ctx.nontrivial += 1
+            ctx.outcomes.add(f"bp:{name}")
+    elif what == "config-null-direction-big-pref":
+        # unit rows u with 3 u1 + 4 u2 + 5 u3 = 0 and a preference proportional to (3,4,5): there is no conflict-free direction, the
+        # result is the null vector for every row order and every MAGNITUDE of the preference vector (the rounding noise of
+        # pinv(units) @ pref grows with |pref|: the comparison with zero has to be relative). Added after a seeded change.
+        J = np.array([[1.0, 0.0], [0.0, 1.0], [-0.6, -0.8]]) * np.array([2.0, 0.5, 3.0])[:, None]
+        base = np.array([3.0, 4.0, 5.0])
+        for dtype in (torch.float64, torch.float32):
+            for mag in (1.0, 1e3, 1e5, 1e-5):
+                for pi in itertools.permutations(range(3)):
+                    pi = list(pi)
+                    ctx.execs += 1
+                    x = T.ConFIG(pref_vector=torch.tensor(base[pi] * mag, dtype=dtype))(torch.tensor(J[pi], dtype=dtype)).double().numpy()
+                    ctx.compare("special:config-null-direction", float(np.abs(x).max()), 1e-6, "rowperm:ConFIG:null-direction-big-pref",
+                                lambda: f"ConFIG(pref={mag:g}*{base[pi].tolist()}) {str(dtype)[6:]} on rows {J[pi].tolist()} (weighted unit rows sum to zero): {x.tolist()}, expected the null vector as for every other order / magnitude")
+                ctx.nontrivial += 1
+                ctx.outcomes.add(f"cn:{dtype}:{mag}")
     elif what == "reuse-after-null-row":
         # ONE instance: first a matrix with an exactly null row, then a full-rank matrix under every row permutation; a new instance
         # must give the same results (an aggregator that zeroes cached/default weights in place for null rows would not)
